@@ -19,6 +19,7 @@ import (
 	"encoding/json"
 	"flag"
 	"fmt"
+	"io"
 	"os"
 	"regexp"
 	"runtime"
@@ -44,6 +45,9 @@ type Op struct {
 	Name  string `json:"name"`
 	Multi bool   `json:"multi"` // build the gateway with EnableMultiFetch
 	Env   string `json:"env"`   // "" = federationtesting supergraph, "mini" = internal/minifed
+	// ErrMode: how subgraph errors reach the client: "" = resolver default (wrapped), "pass" = pass-through with the
+	// subgraph's own paths, "rewrite" = pass-through + RewriteSubgraphErrorPaths
+	ErrMode string `json:"errmode"`
 }
 
 type Case struct {
@@ -51,6 +55,8 @@ type Case struct {
 	Op     string            `json:"op"`
 	Faults map[string]string `json:"faults"`
 	Order  []int             `json:"order"`
+	// Then: id of the operation executed as the SECOND request on the same gateway ("" = the same operation again)
+	Then string `json:"then"`
 }
 
 type Event struct {
@@ -165,7 +171,7 @@ func (r *recorder) hook(point string, a, b uint64) {
 	r.seq++
 	r.events = append(r.events, Event{Seq: r.seq, P: point, A: int64(a), B: int64(b)})
 	switch point {
-	case "ld.load":
+	case "ld.prepared", "ld.load":
 		r.byGoid[goid()] = int(int64(a))
 	case "ld.merged", "ld.skipped":
 		r.finished[int(int64(a))] = true
@@ -371,7 +377,7 @@ var multiAliasRe = regexp.MustCompile(`^f[0-9]+$`)
 
 // partialData turns a genuine subgraph answer into a partial one: the last field of the last element of every _entities
 // array (plain or aliased) resp. the last root field of data becomes null and an errors entry with its path is added.
-func partialData(status int, body []byte) (int, []byte) {
+func partialData(fid int, status int, body []byte) (int, []byte) {
 	var doc map[string]json.RawMessage
 	if json.Unmarshal(body, &doc) != nil {
 		return status, body
@@ -411,10 +417,10 @@ func partialData(status int, body []byte) (int, []byte) {
 			if ent, field, ok := nullLastField(arr[last]); ok {
 				// field-level hole: the last field of the last entity could not be resolved
 				arr[last] = ent
-				errs = append(errs, fmt.Sprintf(`{"message":"faults: injected partial failure","path":[%q,%d,%q]}`, members[i].k, last, field))
+				errs = append(errs, fmt.Sprintf(`{"message":"faults: injected partial failure (fetch %d)","path":[%q,%d,%q]}`, fid, members[i].k, last, field))
 			} else {
 				arr[last] = json.RawMessage("null")
-				errs = append(errs, fmt.Sprintf(`{"message":"faults: injected partial failure","path":[%q,%d]}`, members[i].k, last))
+				errs = append(errs, fmt.Sprintf(`{"message":"faults: injected partial failure (fetch %d)","path":[%q,%d]}`, fid, members[i].k, last))
 			}
 			members[i].v, _ = json.Marshal(arr)
 		}
@@ -422,7 +428,7 @@ func partialData(status int, body []byte) (int, []byte) {
 	if !entity {
 		last := len(members) - 1
 		members[last].v = json.RawMessage("null")
-		errs = append(errs, fmt.Sprintf(`{"message":"faults: injected partial failure","path":[%q]}`, members[last].k))
+		errs = append(errs, fmt.Sprintf(`{"message":"faults: injected partial failure (fetch %d)","path":[%q]}`, fid, members[last].k))
 	}
 	var buf bytes.Buffer
 	buf.WriteString(`{"errors":[` + strings.Join(errs, ",") + `],"data":{`)
@@ -439,9 +445,34 @@ func partialData(status int, body []byte) (int, []byte) {
 	return status, buf.Bytes()
 }
 
+// limiter denies the fetches of the case that carry the fault "RateLimited" (resolve.Context.SetRateLimiter). The fetch is
+// identified through the ld.prepared hook that fired in the same goroutine just before the pre-fetch validation.
+type limiter struct {
+	rec    *recorder
+	denied map[int]bool
+	off    *atomic.Bool
+}
+
+func (l *limiter) RateLimitPreFetch(_ *resolve.Context, _ *resolve.FetchInfo, _ json.RawMessage) (*resolve.RateLimitDeny, error) {
+	if l.off.Load() {
+		return nil, nil
+	}
+	l.rec.mu.Lock()
+	defer l.rec.mu.Unlock()
+	fid, ok := l.rec.byGoid[goid()]
+	if !ok || !l.denied[fid] {
+		return nil, nil
+	}
+	l.rec.seq++
+	l.rec.events = append(l.rec.events, Event{Seq: l.rec.seq, P: "deny", A: int64(fid)})
+	return &resolve.RateLimitDeny{Reason: "faults: over the limit"}, nil
+}
+
+func (l *limiter) RenderResponseExtension(*resolve.Context, io.Writer) error { return nil }
+
 // ---- one execution
 
-func execute(op Op, c *Case, withPlan bool) Out {
+func execute(op Op, c *Case, withPlan bool, second *Op) Out {
 	out := Out{Op: op.ID}
 	if c != nil {
 		out.ID = c.ID
@@ -451,10 +482,15 @@ func execute(op Op, c *Case, withPlan bool) Out {
 	rec := newRecorder()
 	faults := map[int]fedenv.Fault{}
 	rewrites := map[int]func(int, []byte) (int, []byte){}
+	denied := map[int]bool{}
 	var order []int
 	if c != nil {
 		for k, v := range c.Faults {
 			id, err := strconv.Atoi(k)
+			if err == nil && v == "RateLimited" {
+				denied[id] = true
+				continue
+			}
 			if err == nil && v == "Non2xxJSON" {
 				// 503 with the genuine, valid GraphQL body
 				rewrites[id] = func(_ int, body []byte) (int, []byte) { return 503, body }
@@ -462,7 +498,8 @@ func execute(op Op, c *Case, withPlan bool) Out {
 			}
 			if err == nil && v == "PartialData" {
 				// 200 with data + errors: one part of the genuine data is nulled and reported
-				rewrites[id] = partialData
+				fid := id
+				rewrites[id] = func(st int, body []byte) (int, []byte) { return partialData(fid, st, body) }
 				continue
 			}
 			f, ok := fedenv.ParseFault(v)
@@ -486,6 +523,23 @@ func execute(op Op, c *Case, withPlan bool) Out {
 		opts = minifed.Options()
 	}
 	opts.EnableMultiFetch = op.Multi
+	if op.ErrMode != "" {
+		ro := resolve.ResolverOptions{MaxConcurrency: 1024}
+		if opts.ResolverOptions != nil {
+			ro = *opts.ResolverOptions
+		}
+		ro.PropagateSubgraphErrors = true
+		ro.SubgraphErrorPropagationMode = resolve.SubgraphErrorPropagationModePassThrough
+		ro.RewriteSubgraphErrorPaths = op.ErrMode == "rewrite"
+		opts.ResolverOptions = &ro
+	}
+	if len(denied) > 0 {
+		rl := &limiter{rec: rec, denied: denied, off: &phase2}
+		opts.ResolveContext = func(rc *resolve.Context) {
+			rc.RateLimitOptions = resolve.RateLimitOptions{Enable: true}
+			rc.SetRateLimiter(rl)
+		}
+	}
 	opts.Interceptor = func(x *fedenv.Exchange) fedenv.Action {
 		if phase2.Load() {
 			return fedenv.Action{}
@@ -620,7 +674,11 @@ func execute(op Op, c *Case, withPlan bool) Out {
 				}
 				rdone <- r
 			}()
-			r.body, r.err = env.Execute(rctx, op.Query, op.Vars, op.Name)
+			o2 := op
+			if second != nil {
+				o2 = *second
+			}
+			r.body, r.err = env.Execute(rctx, o2.Query, o2.Vars, o2.Name)
 		}()
 		rp := &Repeat{}
 		select {
@@ -744,7 +802,7 @@ func main() {
 	switch *mode {
 	case "plan":
 		for _, op := range readOps(*in) {
-			die(enc.Encode(execute(op, nil, true)))
+			die(enc.Encode(execute(op, nil, true, nil)))
 		}
 	case "run":
 		ops := map[string]Op{}
@@ -767,7 +825,15 @@ func main() {
 			if !ok {
 				die(fmt.Errorf("unknown op %q", c.Op))
 			}
-			o := execute(op, &c, false)
+			var second *Op
+			if c.Then != "" {
+				o2, ok := ops[c.Then]
+				if !ok {
+					die(fmt.Errorf("unknown op %q", c.Then))
+				}
+				second = &o2
+			}
+			o := execute(op, &c, false, second)
 			die(enc.Encode(o))
 			if !o.Arrived || (o.Repeat != nil && !o.Repeat.Arrived) {
 				// a participant is still running: its hook events would pollute the next case; stop here,
